@@ -146,6 +146,20 @@ CHECKS["C13"] = dict(
          "finding (unbounded ** / << folding).",
     design="4/C13")
 
+CHECKS["C01"] = dict(
+    level="translation_validation", engine="T",
+    technique="per generated program: the real lian frontend lowers it (main.py lang); CrossHair (z3) symbolically co-executes the "
+              "Python source under CPython and lian's GIR rows under a reference interpreter with symbolic entry arguments and "
+              "searches for arguments on which outputs or return value differ",
+    text="Translation validation of the Python lowering: for every program of an exhaustively enumerated family (expression "
+         "forms, call forms, classes, containers, and all control-flow skeletons up to the size bound) the solver decides "
+         "equality of observable behaviour for ALL argument vectors (unbounded ints for loop-free programs, small ranges where "
+         "arguments bound loops); CONFIRMED = every path of every program in the slice exhausted. The family is the bound; "
+         "known lowering defects are confined to witness programs listed in known_findings.json.",
+    note="Trusted: CPython as the semantics of Python, the reference GIR interpreter (vlib/gir_interp.py), CrossHair/z3. "
+         "lian's frontend code itself runs concretely (tree-sitter cannot be made symbolic).",
+    design="4/C01")
+
 NOT_APPLICABLE = {
     "C12": "A relation between two whole-pipeline runs on syntactically edited programs: the quantified objects are "
            "program texts and edit sequences; no run-time input, id, flag or history for a solver to range over; "
